@@ -40,6 +40,10 @@ EXTRA_THEOREMS = [
     "lift_extends", "dfilter_extends", "dproj_extends", "dagg_extends",
     # rewriting below other operators (Thm/C01Congr.lean)
     "Ctx.out_eq", "ctx_congr", "ctx_congr_perm",
+    # … below joins (Thm/C01CongrJoin.lean) and aggregations (Thm/C01CongrAgg.lean)
+    "join_out", "join_congr_left", "join_congr_right", "join_congr_left_perm", "join_congr_right_perm",
+    "hashjoin_out", "hashjoin_congr_left", "hashjoin_congr_right",
+    "hashagg_out", "agg_out", "hashagg_congr", "agg_congr",
     # the translator's condition dictionary (Thm/C01Cond.lean): syntactic => semantic
     "DE.eval_congr", "indep_of_cols_disjoint", "readsWithin_of_cols_subset", "indepB_of_cols_disjoint",
     "readsWithinB_of_cols_subset", "depend_on_is_only_syntactic",
@@ -220,13 +224,13 @@ def run(ck):
     cand += ["C01." + n for n in EXTRA_THEOREMS]
     status = {}
     errs_all = {}
-    for mod, extra in (("RlModel.Thm.C01", ["drv_c01"]), ("RlModel.Thm.C01Plan", []), ("RlModel.Thm.C01PlanPerm", []), ("RlModel.Thm.C01Apply", []), ("RlModel.Thm.C01Congr", []), ("RlModel.Thm.C01Cond", [])):
+    for mod, extra in (("RlModel.Thm.C01", ["drv_c01"]), ("RlModel.Thm.C01Plan", []), ("RlModel.Thm.C01PlanPerm", []), ("RlModel.Thm.C01Apply", []), ("RlModel.Thm.C01Congr", []), ("RlModel.Thm.C01CongrJoin", []), ("RlModel.Thm.C01CongrAgg", []), ("RlModel.Thm.C01Cond", [])):
         st, log, errs = vlib.check_lean_obligations(mod, cand, "RlModel", extra)
         for n, v in st.items():
             if n not in status or (v["status"] == "ok" and status[n]["status"] != "ok") or (status[n]["status"] == "missing" and v["status"] != "missing"):
                 status[n] = v
         errs_all.update(errs)
-    forb = vlib.lean_forbidden(vlib.lean_sources("RlModel.Thm.C01") + vlib.lean_sources("RlModel.Thm.C01Plan") + vlib.lean_sources("RlModel.Thm.C01PlanPerm") + vlib.lean_sources("RlModel.Thm.C01Apply") + vlib.lean_sources("RlModel.Thm.C01Congr") + vlib.lean_sources("RlModel.Thm.C01Cond"))
+    forb = vlib.lean_forbidden(vlib.lean_sources("RlModel.Thm.C01") + vlib.lean_sources("RlModel.Thm.C01Plan") + vlib.lean_sources("RlModel.Thm.C01PlanPerm") + vlib.lean_sources("RlModel.Thm.C01Apply") + vlib.lean_sources("RlModel.Thm.C01Congr") + vlib.lean_sources("RlModel.Thm.C01CongrJoin") + vlib.lean_sources("RlModel.Thm.C01CongrAgg") + vlib.lean_sources("RlModel.Thm.C01Cond"))
     obligations = {}
     refuted, broken = [], []
     prefuted, pbroken = [], []
